@@ -5,7 +5,7 @@
      prog  = tokens separated by blanks:
        a0 a1  u<i>  c  s<k>,<v>  g<k>  m<k>  r<k>  e<v>  w<k>,<n>  o  y  t<e>
        [ body ]<e>,<e>.. handler }        try { body } catch (x in e,e..) { handler }
-       L<m> U<m> T<m>  W<m>( body )  i<m>  S<t> J<t> P<t>
+       L<m> U<m> T<m>  W<m>( body )  Q<m>( body )  i<m>  S<t> J<t> P<t>      (Q = if (trylock) { body; unlock })
    argv[1]:
      model  the machine under the given schedule:   t0:<ev>,<ev>.. / t1:.. # c0=<n>,.. # P<t>=[..];.. # <flags>
      spec   every thread on its own (lstep iterated), the counters as the number of stores
@@ -51,6 +51,10 @@ let rec parse_block (toks : string list) (stop : string -> bool) : op list * str
         let m = num (String.sub arg 0 (String.length arg - 1)) in
         let (body, r1) = parse_block rest (fun s -> s = ")") in
         (match r1 with _ :: r2 -> (OWith (m, body), r2) | [] -> failwith "unterminated with")
+      | 'Q' ->
+        let m = num (String.sub arg 0 (String.length arg - 1)) in
+        let (body, r1) = parse_block rest (fun s -> s = ")") in
+        (match r1 with _ :: r2 -> (OTryOnce (m, body), r2) | [] -> failwith "unterminated try-once")
       | 'i' -> (OIncr (num arg), rest)
       | 'S' -> (OSpawn (num arg), rest)
       | 'J' -> (OJoin (num arg), rest)
@@ -101,7 +105,7 @@ let () =
               let fuel = ref 100000 in
               while not (!l).done0 && not (!l).fatal && !fuel > 0 do
                 (match head_store !l with Some m when m < nm -> cells.(m) <- cells.(m) + 1 | _ -> ());
-                l := th_lstep !l; decr fuel
+                l := th_lstep true !l; decr fuel
               done;
               !l) progs in
           Buffer.add_string buf (String.concat " / " (List.mapi (fun t l ->
@@ -111,7 +115,7 @@ let () =
           Buffer.add_string buf " # ";
           (* what thread 0's peeks must read: the complete trace of the peeked thread *)
           let rec peeks (p : op list) = List.concat_map (function
-              | OPeek u -> [i u] | OTry (b, _, h) -> peeks b @ peeks h | OWith (_, b) -> peeks b | _ -> []) p in
+              | OPeek u -> [i u] | OTry (b, _, h) -> peeks b @ peeks h | OWith (_, b) -> peeks b | OTryOnce (_, b) -> peeks b | _ -> []) p in
           let arr = Array.of_list finals in
           Buffer.add_string buf (String.concat ";" (List.concat (List.mapi (fun t p ->
               List.map (fun u -> Printf.sprintf "%d:P%d=[%s]" t u
